@@ -227,6 +227,21 @@ def _crash(case, out, home):
                 break
             saw_old += d_old is None
             saw_new += d_new is None
+            # the restarted process goes on using the profile: what it saves next (here: the previous configuration again, or
+            # a third one) is what the profile then holds, whatever the interrupted save left lying around
+            after = build_config(case["after"]) if case.get("after") is not None else old
+            try:
+                ConfigManager().save(profile, after)
+                got2 = ConfigManager().load(profile)
+            except Exception as e:
+                out.fail("crash", "crash:save_after_restart_fails:%s" % type(e).__name__, {"at": tag, "state": states, "error": _exc(e),
+                                                                                         "files": [f for f, h in fp]})
+                break
+            d_after = config_diff(after, got2)
+            if d_after:
+                out.fail("crash", "crash:save_after_restart_not_effective", {"at": tag, "state": states, "diff": d_after})
+                break
+            out.label("save_after_restart")
         os.environ["XDG_CONFIG_HOME"] = home
         os.environ["HOME"] = home
         final = ConfigManager().load(profile)
@@ -388,8 +403,8 @@ def rt_strategy():
 
 
 def crash_strategy():
-    return st.builds(lambda a, b, p: {"sub": "crash", "old": a, "new": b, "profile": p},
-                     fields_strategy("json"), fields_strategy("json"), _profile)
+    return st.builds(lambda a, b, p, c: {"sub": "crash", "old": a, "new": b, "profile": p, "after": c},
+                     fields_strategy("json"), fields_strategy("json"), _profile, st.one_of(st.none(), fields_strategy("json")))
 
 
 def profile_api_strategy():
@@ -408,6 +423,7 @@ def _enum_basic():
             for how in hows:
                 yield {"sub": "rt", "fmt": fmt, "how": how, "fields": fields, "profile": "acct1"}
     yield {"sub": "crash", "old": base, "new": full, "profile": "acct1"}
+    yield {"sub": "crash", "old": full, "new": dict(full, pushname="a much longer push name " * 4), "after": base, "profile": "acct1"}
     yield {"sub": "profile_api", "old": base, "edits": {"server_static_public": "55" * 32}, "profile": "4915112345678"}
     yield {"sub": "profile_api", "old": full, "edits": {"server_static_public": "66" * 32, "pushname": "new name", "edge_routing_info": "0a0b"},
            "profile": "acct2"}
